@@ -64,14 +64,14 @@ package goose
 
 //@ props C07
 
-//@ func sliceElem
-//@   requires [argument is a slice type] typeis(t, *types.Slice)
+//@ func (Ctx).sliceElem
 //@   may_reject
 //@   noframe
-//@ func ptrElem
-//@   requires [argument is a pointer type] typeis(t, *types.Pointer)
+//@   ensures [returns only for slice types; anything else is rejected] typeis(t, *types.Slice)
+//@ func (Ctx).ptrElem
 //@   may_reject
 //@   noframe
+//@   ensures [returns only for pointer types; anything else is rejected] typeis(t, *types.Pointer)
 //@ func stringLitValue
 //@   requires [literal is a string] lit.Kind == token.STRING
 //@   may_reject
